@@ -81,3 +81,5 @@ func TestC11Hist(t *testing.T) { core.Run(t, "C11", GenHVerify(4), ExecH) }
 func TestC12Hist(t *testing.T) { core.Run(t, "C12", GenHVerify(6), ExecH) }
 
 func TestC13Start(t *testing.T) { core.Run(t, "C13", GenSt, ExecSt) }
+
+func TestC14Hist(t *testing.T) { core.Run(t, "C14", GenH14, ExecH) }
